@@ -12,7 +12,7 @@ INVS = ['Transparent', 'NoForeign', 'NeverFails']
 
 
 def cfg(envset=ALL_ENV, paths='{p1}', grammars='{g1}', dirs='{d1}', contents='{a, b, c}', maxclock=5, maxcalls=3,
-        faults=1, hist=False, stat_before_read=True, compare_ct=True, tolerant=True, invs=INVS):
+        faults=1, hist=False, stat_before_read=True, compare_ct=True, tolerant=True, invs=INVS, diffmodes='{FALSE, TRUE}'):
     b = lambda x: 'TRUE' if x else 'FALSE'  # noqa
     s = '''SPECIFICATION Spec
 CONSTANTS
@@ -29,8 +29,9 @@ CONSTANTS
  TolerantLoad = %s
  Hist = %s
  EnvSet = {%s}
+ DiffModes = %s
 ''' % (paths, grammars, dirs, contents, maxclock, maxcalls, faults, b(stat_before_read), b(compare_ct), b(tolerant),
-       b(hist), ', '.join('"%s"' % e for e in envset))
+       b(hist), ', '.join('"%s"' % e for e in envset), diffmodes)
     s += ''.join('INVARIANT %s\n' % i for i in invs)
     if hist:
         s += 'INVARIANT Emit\n'
